@@ -155,6 +155,140 @@ pub fn check(
                 add("coincident-twin-result-transition-wrong".into());
             }
         }
+        // Nearest lower result edge, judged only where the geometry leaves no choice: this sub-segment has
+        // no coincident twin, and the nearest non-vertical sub-segment below its left end (an edge
+        // leaving the same point clockwise of it, else the edge passing strictly below that point) is
+        // unambiguous. If that edge (or its coincident twin) is a result boundary, it is what must be
+        // recorded. Where the nearest edge is not a result boundary the recorded edge is whatever a
+        // predecessor handed down, and only the clause further below applies.
+        if !twin {
+            let ttol = if ctx.is_some() { 1e-9 } else { 8.0 * tol };
+            let mut ambiguous = false;
+            let mut group: Vec<&&E> = vec![];
+            let fan: Vec<&&E> = lefts
+                .iter()
+                .filter(|s| s.point == e.point && eopt(s).0 > p.0 && eopt(s) != q)
+                .collect();
+            let mut fan_below: Vec<&&E> = vec![];
+            for s in fan {
+                let b = eopt(s);
+                let o = orient(p, q, b);
+                let lb = ((b.0 - p.0).powi(2) + (b.1 - p.1).powi(2)).sqrt();
+                if o.abs() / (l * lb) <= ttol && ctx.is_none() {
+                    ambiguous = true;
+                } else if o == 0.0 {
+                    ambiguous = true; // collinear with different length: C13's subject
+                } else if o < 0.0 {
+                    fan_below.push(s);
+                }
+            }
+            if !fan_below.is_empty() {
+                let mut best = fan_below[0];
+                for s in &fan_below[1..] {
+                    if orient(p, eopt(best), eopt(s)) > 0.0 {
+                        best = s;
+                    }
+                }
+                for s in &fan_below {
+                    let o = orient(p, eopt(best), eopt(s));
+                    if o == 0.0 {
+                        if eopt(s) != eopt(best) {
+                            ambiguous = true;
+                        }
+                        group.push(s);
+                    } else if ctx.is_none() {
+                        let dd = |a: P, b: P| ((a.0 - b.0).powi(2) + (a.1 - b.1).powi(2)).sqrt();
+                        let lb = dd(p, eopt(best)) * dd(p, eopt(s));
+                        if o.abs() / lb <= ttol {
+                            ambiguous = true;
+                        }
+                    }
+                }
+            } else {
+                let yat = |s: &E| {
+                    let (a, b) = (ept(s), eopt(s));
+                    a.1 + (p.0 - a.0) * (b.1 - a.1) / (b.0 - a.0)
+                };
+                let mut cands: Vec<&&E> = vec![];
+                for s in lefts.iter() {
+                    let (a, b) = (ept(s), eopt(s));
+                    if !(a.0 <= p.0 && p.0 < b.0) || a == p {
+                        continue;
+                    }
+                    if dist_pt_seg(p, (a, b)) <= ttol {
+                        ambiguous = true; // an edge through the left end that was not subdivided there
+                        continue;
+                    }
+                    if orient(a, b, p) > 0.0 {
+                        cands.push(s);
+                    }
+                }
+                if !cands.is_empty() {
+                    let ymax = cands.iter().map(|s| yat(s)).fold(f64::NEG_INFINITY, f64::max);
+                    let near: Vec<&&E> = cands
+                        .iter()
+                        .filter(|s| ymax - yat(s) <= ttol)
+                        .cloned()
+                        .collect();
+                    let a0 = ept(near[0]);
+                    if near.iter().any(|s| ept(s) != a0) {
+                        ambiguous = true;
+                    } else {
+                        // same start: a fan directly below; its uppermost edge is the nearest
+                        let mut best = near[0];
+                        for s in &near[1..] {
+                            if orient(a0, eopt(best), eopt(s)) > 0.0 {
+                                best = s;
+                            }
+                        }
+                        for s in &near {
+                            if orient(a0, eopt(best), eopt(s)) == 0.0 {
+                                if eopt(s) != eopt(best) {
+                                    ambiguous = true;
+                                }
+                                group.push(s);
+                            }
+                        }
+                        if near.len() > group.len() && a0.0 != p.0 {
+                            ambiguous = true; // distinct edges at one height without a common vertex there
+                        }
+                    }
+                }
+            }
+            if ambiguous {
+                loc.add("nearest_lower_edge_ambiguous_skipped", 1);
+            } else if !group.is_empty() && group.iter().any(|s| s.is_in_result()) {
+                loc.add("nearest_lower_result_edge_judged", 1);
+                let (ga, gb) = (ept(group[0]), eopt(group[0]));
+                let ok = match e.get_prev_in_result() {
+                    Some(pr) => {
+                        let (ra, rb) = (ept(&pr), eopt(&pr));
+                        // the recorded event may be the first part of an edge that was split at this
+                        // very point after being recorded; its continuation is then the nearest edge
+                        let first_part = rb == p && ga == p && {
+                            let o = orient(ra, rb, gb);
+                            let dd = |a: P, b: P| ((a.0 - b.0).powi(2) + (a.1 - b.1).powi(2)).sqrt();
+                            o == 0.0 || (ctx.is_none() && o.abs() / (dd(ra, rb) * dd(rb, gb)) <= ttol)
+                        };
+                        pr.is_in_result() && ((ra == ga && rb == gb) || first_part)
+                    }
+                    None => false,
+                };
+                if !ok {
+                    if std::env::var("VERIF_DEBUG").is_ok() {
+                        println!(
+                            "DEBUG nearest: e={:?}->{:?} nearest={:?}->{:?} recorded={:?}",
+                            p,
+                            q,
+                            ga,
+                            gb,
+                            e.get_prev_in_result().map(|r| (ept(&r), eopt(&r)))
+                        );
+                    }
+                    add("prev_in_result-not-the-nearest-result-edge-below".into());
+                }
+            }
+        }
         if let Some(pr) = e.get_prev_in_result() {
             if let Some(po) = pr.get_other_event() {
                 if !pr.is_in_result() {
